@@ -362,8 +362,8 @@ PROPS["C15"] = dict(
                "unrankN -- all with binary numbers. Tie: CONVERT_TO_INDEX_SET tables, getElement(-2..n+1), empty "
                "and full sets, non-uniform domains; product sets of up to 2^40 members: stored cardinality of "
                "the root, getElement around 2^31, 2^32, 2^33 and the ends, value at the member found.",
-    level_note=_MODELLED + "Stored cardinalities of inner nodes are not compared; huge sets other than "
-               "products are out of reach of the tabulating model.")
+    level_note=_MODELLED + "Huge sets other than "
+               "products are out of reach of the tabulating model (their lookups are not checked).")
 
 PROPS["C12"] = dict(
     gens=[("hist", lambda r: gen.gen_hist(r, fanin=False), 0.6), ("reuse", gen.gen_reuse, 0.4),
